@@ -242,6 +242,8 @@ class Vals:
     def env(self, it, name="env"):
         return SElem(z3.Int(name), "env")
 
+    KINDS0 = ["null", "true", "false", "int", "decimal", "string", "date", "pattern", "list0", "set0", "map0", "object0",
+              "func", "input", "output", "node", "break", "continue", "return"]
     KINDS = ["null", "true", "false", "int", "decimal", "string", "date", "pattern", "list", "set", "map", "object",
              "func", "input", "output", "node", "break", "continue", "return"]
 
@@ -263,6 +265,14 @@ class Vals:
             return self.date(it, name)
         if kind == "pattern":
             return self.pattern(it, name)
+        if kind == "list0":
+            return self.list_of(it, [], name)
+        if kind == "set0":
+            return self.set_of(it, [], name)
+        if kind == "map0":
+            return self.map_of(it, [], name)
+        if kind == "object0":
+            return self.object_of(it, [], name)
         if kind == "list":
             return self.list_sym(it, name)
         if kind == "set":
@@ -390,3 +400,47 @@ def real_env(world, it, bindings=None, parent=None):
     o.fresh = False
     pd.fresh = False
     return o
+
+
+# ----------------------------------------------------------------------------- callee contracts of date.py (proved in C17)
+
+def date_abstractions(w):
+    """to_oa_date / to_date replaced by their contracts (which C17 proves against the bodies)."""
+    from pyvc.values import mk_int
+
+    def abs_to_oa(it, a, k, node):
+        d = a[0]
+        if not (isinstance(d, Obj) and d.cls.name == "datetime"):
+            it.check("pre:to_oa_date:argument-is-datetime", False, node)
+        it.check("pre:to_oa_date:year>=1900", zi(d.fields["year"]) >= 1900, node)
+        n = date_N(d)
+        if all(isinstance(d.fields[f], int) and d.fields[f] == 0 for f in ("hour", "minute", "second", "microsecond")):
+            return SFloat(z3.ToReal(n), intz=n)
+        r = it.fresh_float("oa")
+        it.path.assume(z3.And(r.z >= z3.ToReal(n), r.z < z3.ToReal(n) + 1), check=False)
+        return r
+
+    def abs_to_date(it, a, k, node):
+        x = a[0]
+        if isinstance(x, SFloat) and x.intz is not None:
+            x = mk_int(x.intz)
+        if isinstance(x, float):
+            if x != x or x in (float("inf"), float("-inf")) or not (N_MIN <= x < N_MAX + 1):
+                it.throw("ValueError", "day number out of range", node)
+            x = SFloat(z3.RealVal(repr(x)))
+        if isinstance(x, SFloat):
+            if not it.path.branch(z3.And(x.z >= N_MIN, x.z < N_MAX + 1)):
+                it.throw("ValueError", "day number out of range", node)
+            d = new_datetime(w, it.fresh_int("ry"), it.fresh_int("rm"), it.fresh_int("rd"), it.fresh_int("rh"),
+                             it.fresh_int("rmi"), it.fresh_int("rs"), it.fresh_int("rus"))
+            it.path.assume(dt_valid(d), check=False)
+            return d
+        if not isinstance(x, (int, SInt)):
+            it.guard(False, "TypeError", node, "unsupported operand for to_date")
+        if not it.path.branch(z3.And(zi(x) >= N_MIN, zi(x) <= N_MAX)):
+            it.throw("ValueError", "day number out of range", node)
+        d = new_datetime(w, it.fresh_int("ry"), it.fresh_int("rm"), it.fresh_int("rd"), 0, 0, 0, 0)
+        it.path.assume(dt_valid(d), check=False)
+        it.path.assume(date_N(d) == zi(x), check=False)
+        return d
+    return {"to_oa_date": abs_to_oa, "to_date": abs_to_date}
